@@ -229,6 +229,24 @@ def check_mgm_costmodel(ctx, cb, hv, rule):
 
 
 
+def offer_roles(fb):
+    """{value expression: 'own' | 'partner'} from the stores into the trial assignment of _find_best_offer, written either as
+    `partial_asgt.update({partner: a, self.variable.name: b})` or as item assignments; second result: the store sites"""
+    roles, sites = {}, []
+    for c in ast.walk(fb.node):
+        if isinstance(c, ast.Call) and norm(c.func) == "partial_asgt.update" and c.args and isinstance(c.args[0], ast.Dict):
+            sites.append(c)
+            for k, v in zip(c.args[0].keys, c.args[0].values):
+                roles[norm(v)] = "own" if norm(k) == "self.variable.name" else "partner"
+    items = [a for a in ast.walk(fb.node) if isinstance(a, ast.Assign) and isinstance(a.targets[0], ast.Subscript) and norm(a.targets[0].value) == "partial_asgt"]
+    if items and not sites:
+        for a in items:
+            roles[norm(a.value)] = "own" if norm(a.targets[0].slice) == "self.variable.name" else "partner"
+        if len(items) == 2:
+            sites = [items[0]]
+    return roles, sites
+
+
 def check_offer_slots(ctx, repo, rule):
     """MGM2: _find_best_offer lists (partner value, own value, partner name); the receiver of the offers unpacks them in those roles"""
     cls = repo.cls(MGM2, "Mgm2Computation")
@@ -236,11 +254,7 @@ def check_offer_slots(ctx, repo, rule):
     ho = cls.methods["_handle_offer_messages"]
     ctx.touch(fb)
     ctx.touch(ho)
-    upd = [c for c in ast.walk(fb.node) if isinstance(c, ast.Call) and norm(c.func) == "partial_asgt.update" and c.args and isinstance(c.args[0], ast.Dict)]
-    roles = {}
-    if len(upd) == 1:
-        for k, v in zip(upd[0].args[0].keys, upd[0].args[0].values):
-            roles[norm(v)] = "own" if norm(k) == "self.variable.name" else "partner"
+    roles, upd = offer_roles(fb)
     tuples = [t for t in ast.walk(fb.node) if isinstance(t, ast.Tuple) and len(t.elts) == 3 and isinstance(t.ctx, ast.Load) and all(isinstance(e, ast.Name) for e in t.elts)
               and any(norm(e) in roles for e in t.elts)]
     shape = {tuple(roles.get(norm(e), "name") for e in t.elts) for t in tuples}
